@@ -516,3 +516,39 @@ Qed.
 
 Example ex_events_spec : events_spec (ex_span_tree "2") = Some [(1700000000000000000, "cs")] /\ kind_spec (ex_span_tree "2") = Some 3.
 Proof. split; vm_compute; reflexivity. Qed.
+
+(* ------------------------------------------------------------------ the same statements over raw token streams *)
+Lemma tok_eqb_eq a b : tok_eqb a b = true -> a = b.
+Proof. destruct a, b; cbn; try discriminate; try reflexivity; intro H; apply String.eqb_eq in H; subst; reflexivity. Qed.
+Lemma toks_eqb_eq : forall a b, list_eqb tok_eqb a b = true -> a = b.
+Proof.
+  unfold list_eqb. induction a as [|x a IH]; destruct b as [|y b]; cbn [all2]; try discriminate; [reflexivity|].
+  intro H. apply andb_true_iff in H. destruct H as [H1 H2]. rewrite (tok_eqb_eq x y H1), (IH b H2). reflexivity.
+Qed.
+(* a stream the check accepts as well formed (stream_wf, evaluated on every observed stream) IS the token list of a JSON value *)
+Lemma stream_wf_tree ts : stream_wf ts = true -> exists t, ts = toks_of t /\ jt_ok t = true.
+Proof.
+  unfold stream_wf. destruct (parse ts) as [t|]; [|discriminate]. intro H. apply andb_true_iff in H. destruct H as [H1 H2].
+  exists t. split; [symmetry; apply toks_eqb_eq; exact H2|exact H1].
+Qed.
+Lemma streams_wf_trees tss : forallb stream_wf tss = true -> exists ts, tss = map toks_of ts /\ forallb jt_ok ts = true.
+Proof.
+  induction tss as [|x r IH]; intro H; [exists []; split; reflexivity|].
+  cbn [forallb] in H. apply andb_true_iff in H. destruct H as [H1 H2].
+  destruct (stream_wf_tree x H1) as (t & -> & Ht). destruct (IH H2) as (ts & -> & Hts).
+  exists (t :: ts). split; [reflexivity|]. cbn [forallb]. rewrite Ht, Hts. reflexivity.
+Qed.
+
+Theorem read_back_token_streams_l : forall nd tss rows ps,
+  forallb stream_wf tss = true ->
+  zt_decode fixed false nd tss = Some rows -> pushed_of (zin nd tss) = Some ps ->
+  Forall2 row_of ps (map fst rows) /\ Forall2 tags_of ps (map snd rows) /\
+  Forall2 (fun p sr => reads_back p (read_row_tok fixed tss (fst sr))) ps rows.
+Proof.
+  intros nd tss rows ps Hwf Hd Hp. destruct (streams_wf_trees tss Hwf) as (ts & -> & Hok).
+  destruct (rows_of_tokens_l nd ts rows ps Hok Hd Hp) as [H1 H2].
+  split; [exact H1|]. split; [exact H2|]. apply (read_back_tokens_l nd ts rows ps Hok Hd Hp).
+Qed.
+
+Example ex_streams_wf : forallb stream_wf (map toks_of ex_trees) = true /\ stream_wf ex_tail_line = false /\ stream_wf [TObjS; TKey "a"; TNum "+1"; TObjE] = false.
+Proof. split; [vm_compute; reflexivity|]. split; vm_compute; reflexivity. Qed.
